@@ -7,6 +7,7 @@ values are `int(polynomial)`, see `ExtF.toInt/fromInt` in part 2), `signed/unsig
 __int__`, `reduce/rebuild` ≙ `__reduce__/createGF`.  All statements hold for every order and every list: no bounds.
 -/
 import MpycV.Lemmas.PrimeFBytes
+import MpycV.Lemmas.ExtFBytes
 
 namespace MpycV.C22
 open MpycV.PrimeF
@@ -98,5 +99,48 @@ theorem pickle_roundtrip (p : Nat) (hp : 0 < p) (n w : Int) (a : Nat) :
 (root not canonical) is NOT rebuilt by its own `__reduce__` data; `GF((7, 2, 13))` now canonicalises -/
 theorem pickle_raw_unreduced_root_differs :
     (rebuild (reduce ⟨7, 2, 13⟩ 3)).1 ≠ ⟨7, 2, 13⟩ ∧ GFtuple 7 2 13 = ⟨7, 2, 6⟩ := by decide
+
+/-! # Part 2: extension and binary fields
+
+`to_bytes` writes `int(value)` (`Σ cᵢ pⁱ`, resp. the bitmask) in `byte_length` little-endian bytes; the runtime rebuilds
+elements with `F(int)`.  For every admissible modulus and every list of class-invariant values the round trip is the
+identity. -/
+
+section ext
+open MpycV.ExtF MpycV.GFpX
+
+/-- ★ extension fields: `[F(v) for v in from_bytes(to_bytes(values))] = values`, lengths multiply, no exception -/
+theorem ext_from_to_bytes {p : ℕ} [Fact p.Prime] {m : Poly} (hm : IsModulus p m) (xs : List Poly)
+    (h : ∀ a ∈ xs, Red p m a) :
+    ∃ bs, ExtF.toBytes p m xs = .ok bs ∧ bs.length = ExtF.byteLength p m * xs.length ∧
+      ExtF.fromBytes p m bs = .ok xs :=
+  ExtF.from_to_bytes hm xs h
+
+/-- ★ `int(a)` is a consistent representative: below the order, and `F(int(a)) = a` -/
+theorem ext_int_view {p : ℕ} [Fact p.Prime] {m : Poly} (hm : IsModulus p m) {a : Poly} (ha : Red p m a) :
+    ExtF.toInt p a < ExtF.order p m ∧ ExtF.ofInt p m ((ExtF.toInt p a : ℕ) : ℤ) = a :=
+  ⟨toInt_lt_order hm ha, ofInt_toInt hm ha⟩
+
+/-- pickling: `__reduce__` hands `(modulus, value)` to `createGF`/`xGF`, which is cached on the modulus VALUE: same class -/
+theorem ext_pickle_roundtrip (p : ℕ) (m a : Poly) : ExtF.rebuild (ExtF.reduce p m a) = ((p, m), a) := rfl
+
+example : ExtF.toBytes 3 [1, 0, 1] [[2, 1], [2, 2]] = .ok [5, 8] ∧
+    ExtF.fromBytes 3 [1, 0, 1] [5, 8] = .ok [[2, 1], [2, 2]] := by decide +kernel
+
+end ext
+
+section bin
+open MpycV.BinF
+
+/-- ★ binary fields: byte round trip for every list of class-invariant values -/
+theorem bin_from_to_bytes {m : ℕ} (xs : List ℕ) (h : ∀ a ∈ xs, BRed m a) :
+    ∃ bs, BinF.toBytes m xs = .ok bs ∧ bs.length = BinF.byteLength m * xs.length ∧ BinF.fromBytes m bs = .ok xs :=
+  BinF.from_to_bytes xs h
+
+/-- GF(2^8) needs two bytes per element (`bit_length(256) = 9`) -/
+example : BinF.byteLength 283 = 2 ∧ BinF.toBytes 283 [255, 1] = .ok [255, 0, 1, 0] ∧
+    BinF.fromBytes 283 [255, 0, 1, 0] = .ok [255, 1] := by decide +kernel
+
+end bin
 
 end MpycV.C22
